@@ -19,7 +19,8 @@ LEVEL = "exploration"
 TECHNIQUE = 'property-based testing with an independent decoder and encoder of the documented layout; literal guide documents; malformed and byte-damaged documents'
 LEVEL_TEXT = 'exploration: writer output is decoded by an independent implementation of the documented layout, reader input is produced by an independent encoder, so a change made consistently to writer and reader is still caught'
 RULE = (
-    "writer part: (profile, tree spec, storage configuration) as in C05; the written JSON (decompressed with zipfile "
+    "writer part: (profile, tree spec, storage configuration) as in C05 (incl. ASCII-only streams, a lone-surrogate "
+    "string and an earlier save() that shared the meta dict object); the written JSON (decompressed with zipfile "
     "directly) is decoded by an independent decoder of the documented layout: header ($generator nutree/..., "
     "$format_version 1.0, $key_map/$value_map exactly the maps in use, user meta), one entry per node in pre-order, "
     "1-based parent positions, int payload exactly for a repeated data_id whose kind equals that of the first "
@@ -283,7 +284,8 @@ def spec_view(prof, spec):
             did = d.guid
         else:
             did = None
-        out_nodes.append((item[0], o.get("id") if prof.allows_explicit_ids() else None))
+        # clone groups are defined by the effective data_id (an explicit 0 on "" IS hash(""))
+        out_nodes.append(("did", did) if isinstance(d, str) else (item[0], o.get("id") if prof.allows_explicit_ids() else None))
         return [prof.data_view(d), did if prof.id_is_value_derived() else None,
                 (o.get("kind") or "child") if prof.typed else None, [one(c) for c in item[1]]]
 
